@@ -72,7 +72,7 @@ def run_case(case, sched_seed=None, choose=None, simultaneous=0.2, slow=None, in
         return rec
     rng = random.Random(sched_seed) if sched_seed is not None else None
     for ti, th in enumerate(thunks):
-        ctl = tz.Ctl(choose=None if choose is None else [list(c) for c in choose[ti]], fails={sched_cases.node_name(i) for i in case["fails"]}, rng=rng, simultaneous=simultaneous, free_run=bool(slow))
+        ctl = tz.Ctl(choose=None if (choose is None or ti >= len(choose)) else [list(c) for c in choose[ti]], fails={sched_cases.node_name(i) for i in case["fails"]}, rng=rng, simultaneous=simultaneous, free_run=bool(slow))
         ctl.slow = slow or 0
         if inline is not None:
             ctl.inline_plan = [list(x) for x in inline[ti]] if ti < len(inline) else []
